@@ -42,6 +42,10 @@ def gen_cases(ctx, n):
     cases = []
     # the stored minimal reproduction of finding F6 runs first (corpus)
     cases.append(("poisson", [16.5], [0.75, 1e-5]))
+    # the direct/Gaussian switch-over: lambda exactly at the threshold and one ulp on either side, several streams
+    for lam in (16.0, math.nextafter(16.0, 0.0), math.nextafter(16.0, 32.0)):
+        for _ in range(3):
+            cases.append(("poisson", [lam], nz(gen_u(r, 200, extremes=False))))
     kinds = ["uniform", "exponential", "bernoulli", "bernoulli2", "rejection", "reciprocal",
              "invsquare", "radial", "isotropic", "box", "normal2", "poisson", "poisson",
              "selector", "gamma", "tsaiurban", "selector"]
@@ -139,6 +143,83 @@ def mt_first_iteration(alpha, z):
         return None
     v3 = v ** 3
     return 1 - 0.0331 * z ** 4, 0.5 * z * z + d * (1 - v3 + math.log(v3))
+
+
+def pointwise_law_oracle(k, p, u, impl):
+    """The pointwise laws proved in coq/C15/DensityLaws.v, evaluated on the implementation's own (stream, output) pair
+    (no model involved): Poisson inter-arrival characterisation, Gaussian-regime rounding, Box-Muller polar identity,
+    Marsaglia-Tsang exact test of the accepted triple.  Returns (kind, message, details) or None.  Tolerances only
+    absorb rounding: a knife-edge decision (deciding quantity within 1e-9 of its threshold) is accepted either way."""
+    if impl is None:
+        return None
+    vals, cons = impl
+    if k == "poisson" and len(vals) == 1 and vals[0] == int(vals[0]) and vals[0] >= 0:
+        lam, kk = p[0], int(vals[0])
+        if lam <= 16:
+            # C15_poisson_direct_interarrival: prod_{i<=j} u_i > e^-lambda for j <= k, prod_{i<=k+1} u_i <= e^-lambda
+            if cons != kk + 1 or cons > len(u):
+                return ("poisson-interarrival", "Poisson direct method (lambda=%r) returned k=%d after %d draws (must be k+1)" % (lam, kk, cons),
+                        {"lambda": lam, "k": kk, "draws": cons})
+            q = math.exp(lam)
+            for j in range(1, kk + 2):
+                q *= u[j - 1]
+                if j <= kk and not (q > 1 - 1e-9):
+                    return ("poisson-interarrival", "Poisson(lambda=%r) returned k=%d but e^lambda * u_1..u_%d = %.9g <= 1: "
+                            "prod_{i<=%d} u_i > e^-lambda fails (the count should have been %d)" % (lam, kk, j, q, j, j - 1),
+                            {"lambda": lam, "k": kk, "j": j, "exp_lambda_times_prod": q})
+                if j == kk + 1 and not (q <= 1 + 1e-9):
+                    return ("poisson-interarrival", "Poisson(lambda=%r) returned k=%d but e^lambda * u_1..u_%d = %.9g > 1: "
+                            "prod_{i<=k+1} u_i <= e^-lambda fails (the arrivals before time lambda are not exhausted)" % (lam, kk, j, q),
+                            {"lambda": lam, "k": kk, "j": j, "exp_lambda_times_prod": q, "e^-lambda": math.exp(-lam),
+                             "prod_u": q / math.exp(lam)})
+        elif len(u) >= 2 and 0 < u[1] <= 1 and lam < 1e9:
+            # Gaussian regime: k = floor(max(lambda + sqrt(lambda) r sin(theta) + 1/2, 0)), two draws
+            y = lam + math.sqrt(lam) * math.sqrt(-2 * math.log(u[1])) * math.sin(2 * math.pi * u[0]) + 0.5
+            y = max(y, 0.0)
+            if cons != 2 or abs(kk - math.floor(y)) > (1 if abs(y - round(y)) < 1e-6 * max(1.0, lam) else 0):
+                return ("poisson-gaussian", "Poisson(lambda=%r) in the Gaussian regime returned %d after %d draws, rounded normal gives %d"
+                        % (lam, kk, cons, math.floor(y)), {"lambda": lam, "k": kk, "draws": cons, "clamped_sample_plus_half": y})
+    if k == "normal2" and len(vals) == 2 and len(u) >= 2 and 0 < u[1] <= 1 and p[1] > 0 and all(math.isfinite(v) for v in vals):
+        # C15_normal_spare_companion: x1 = m + sd r sin(theta), x2 = m + sd r cos(theta), r^2 = -2 ln u2, theta = 2 pi u1
+        m, sd = p
+        rr = math.sqrt(-2 * math.log(u[1]))
+        th = 2 * math.pi * u[0]
+        z = [(vals[0] - m) / sd, (vals[1] - m) / sd]
+        dz = 8 * EPS * (abs(m) + max(abs(vals[0]), abs(vals[1]))) / sd + 1e-9 * (rr + 1)
+        if cons != 2 or abs(z[0] - rr * math.sin(th)) > dz or abs(z[1] - rr * math.cos(th)) > dz \
+           or abs(z[0] ** 2 + z[1] ** 2 - rr * rr) > 4 * (rr + dz) * dz:
+            return ("box-muller", "NormalDistribution(%r, %r): the two successive samples are not the Box-Muller pair of (u1, u2): "
+                    "z = %r, r = %r, theta = %r, draws = %d" % (m, sd, z, rr, th, cons),
+                    {"z1": z[0], "z2": z[1], "r": rr, "theta": th, "z1^2+z2^2": z[0] ** 2 + z[1] ** 2, "-2 ln u2": rr * rr, "draws": cons})
+    if k == "gamma" and len(vals) == 1 and vals[0] > 1e-280 and math.isfinite(vals[0]) and 2 <= cons <= len(u):
+        # C15_gamma_accept_exact (+ boost identity): the accepted (z, v, u) is recovered from the OUTPUT
+        # x = d v^3 beta [* w^(1/alpha)], u = the draw before [the boost draw] w, and must pass the exact test
+        al, be = p
+        boost = al < 1
+        ap = al + 1 if boost else al
+        d = ap - 1.0 / 3
+        c = 1 / math.sqrt(9 * d)
+        x = vals[0]
+        if boost:
+            w = u[cons - 1]
+            if not (w > 0) or al < 1e-3:
+                return None
+            x = x / w ** (1 / al)
+            uu = u[cons - 2]
+        else:
+            uu = u[cons - 1]
+        v3 = x / (d * be)
+        if not (uu > 0 and v3 > 1e-200 and math.isfinite(v3)):
+            return None
+        v = v3 ** (1.0 / 3)
+        z = (v - 1) / c
+        exact = 0.5 * z * z + d * (1 - v3 + math.log(v3))
+        tol = 1e-7 * (1 + abs(exact) + (1 / al if boost else 0))
+        if math.log(uu) > exact + tol:
+            return ("gamma-exact-test", "GammaDistribution(%r, %r) returned %r from the triple z=%.9g v=%.9g u=%.9g which FAILS the exact "
+                    "Marsaglia-Tsang test: ln u = %.9g > %.9g" % (al, be, vals[0], z, v, uu, math.log(uu), exact),
+                    {"alpha": al, "z": z, "v": v, "u": uu, "ln_u": math.log(uu), "exact_bound": exact, "draws": cons})
+    return None
 
 
 def squeeze_oracle(k, p, u, impl):
@@ -437,7 +518,7 @@ def run_eloss(ctx, proofs_ok):
             ctor = "run_elurban_ctor %s %s %s %s %s" % (" ".join(hexf(x) for x in matp), hexf(mean), hexf(max_e), hexf(tmb), hexf(beta_sq))
             extra = {"state": state, "mean": mean, "matp": matp}
         else:
-            smp = "Some ([%s], 0%%nat)" % hexf(mean_loss)
+            smp = "run_eldelta %s %s" % (hexf(mean_loss), fl(u))
         exprs.append("(%s, %s, %s)" % (sel, ctor, smp))
         impl = None if consumed < 0 else ([loss], consumed)
         meta.append((k, p, u, impl, model, extra, {"mean_loss": mean_loss, "max_energy": me_sel, "max_energy_transfer": mt,
@@ -513,6 +594,8 @@ def run_eloss(ctx, proofs_ok):
                 bad = "Gaussian energy loss outside (0, 2 mean]"
             # (gamma: > 0 in exact arithmetic; in binary64 u^(1/k) underflows to 0 for k = mean^2/var << 1,
             #  so 0 is accepted -- see NOTES.md)
+            elif k == "eloss" and model == 0 and not (x == p[3] and impl[1] == 0):
+                bad = "EnergyLossDeltaDistribution did not return the mean loss without drawing (C15_eloss_delta_spec)"
             elif model == 2 and not (0 < x <= 2 * p[3]):
                 bad = "Gaussian energy loss outside (0, 2 mean]"
             if bad:
@@ -960,6 +1043,14 @@ def run(ctx):
             ctx.violation("support", "%s (%s params=%r)" % (sv, k, p),
                           {"sampler": k, "params": p, "stream": u[:impl[1]], "impl_values": impl[0], "model_values": model and model[0]},
                           signature=sig)
+            continue
+        pl = pointwise_law_oracle(k, p, u, impl)
+        if k in ("poisson", "normal2", "gamma") and impl is not None:
+            ctx.count("pointwise-law-oracle:%s:%s" % (k if k != "poisson" else ("poisson-direct" if p[0] <= 16 else "poisson-gaussian"),
+                                                       "ok" if pl is None else "FAIL"))
+        if pl:
+            ctx.violation(pl[0], pl[1], dict({"sampler": k, "params": p, "stream": u[:max(impl[1], 3)], "impl_values": impl[0],
+                                              "draws_consumed": impl[1]}, **pl[2]))
             continue
         sq = squeeze_oracle(k, p, u, impl)
         if k == "gamma":
